@@ -120,7 +120,7 @@ static void on_nack(coap_session_t *s, const coap_pdu_t *sent, const coap_nack_r
   int sid = sid_of(s);
   item(sid, "N%d.%d.%d", (int)reason, (int)mid, sent ? 1 : 0);
   /* not from inside a disconnect (whatever is submitted there is thrown away with the queues) */
-  if (in_disconnect || (reason != COAP_NACK_TOO_MANY_RETRIES && reason != COAP_NACK_RST)) return;
+  if (in_disconnect || !sent || (reason != COAP_NACK_TOO_MANY_RETRIES && reason != COAP_NACK_RST)) return;
   for (int h = 0; h < nhooks; h++)
     if (!hooks[h].used && hooks[h].sid == sid && hooks[h].mid == (int)mid) {
       hooks[h].used = 1;
